@@ -116,6 +116,11 @@ func VerifProbeStdlib() {
 	case 14:
 		e := base64.StdEncoding.EncodeToString([]byte("ab"))
 		nd.Assert(e == "YWI=", "base64")
+		nd.Assert(base64.RawURLEncoding.EncodeToString([]byte{0xfb, 0xff, 0xfe, 0x01}) == "-__-AQ", "base64-raw-url")
+		// symbolic bytes: the text has the padded length, a byte below 0x04 starts the text with 'A', and equal texts mean equal bytes
+		eb := base64.StdEncoding.EncodeToString(b)
+		nd.Assert(len(eb) == 4 && eb[3] == '=' && (eb[0] == 'A') == (b[0] < 4), "base64-symbolic")
+		nd.Assert((eb == base64.StdEncoding.EncodeToString([]byte("ab"))) == (s == "ab"), "base64-symbolic-injective")
 	case 15:
 		buf := make([]byte, 8)
 		binary.BigEndian.PutUint64(buf, 0x0102030405060708)
